@@ -264,8 +264,8 @@ func hObserveFile(name string, policy int) (seen []hEvent, producerDone bool, st
 // consumer sees the callback parser's records, then completion or that error; a draining
 // consumer sees Done last and the producer exits.
 func Harness_channel_parse_file() {
-	kind := verifChoose("file", 4)
-	verifLabel("file", []string{"well-formed", "malformed", "missing", "directory"}[kind])
+	kind := verifChoose("file", 7)
+	verifLabel("file", []string{"well-formed", "malformed", "missing", "directory", "byte-order-mark", "two-bytes", "one-byte"}[kind])
 	name := ""
 	switch kind {
 	case 0:
@@ -276,6 +276,12 @@ func Harness_channel_parse_file() {
 		name = verifMissingFile("f")
 	case 3:
 		name = verifDir("f")
+	case 4:
+		name = verifFile("f", "\xef\xbb\xbf2011/07/17:\n  a: 1\n")
+	case 5:
+		name = verifFile("f", "a:")
+	case 6:
+		name = verifFile("f", "7")
 	}
 	policy := verifChoose("policy", 2)
 	ref := &hRec{}
@@ -303,6 +309,11 @@ func Harness_channel_parse_file() {
 	}
 	rest := seen[k:]
 	verifAssert("records-before-first-error", k == len(ref.nodes))
+	if k == len(ref.nodes) {
+		for i := 0; i < k; i++ {
+			verifAssert("record-identical", seen[i].node.Header == ref.nodes[i].Header && len(seen[i].node.Elements) == len(ref.nodes[i].Elements))
+		}
+	}
 	if firstErr == nil {
 		verifAssert("completion-after-records", len(rest) == 1 && rest[0].kind == 2)
 	} else {
